@@ -74,14 +74,25 @@ func vhsNewSess(wga bool, inject map[int]int) *vhsSess {
 
 const vhsMsize = 8192
 
+// watchdog: a subject that wedges or spins is given up on after three stuck scenarios
+var vhsStuck int32
+
+func vhsTooStuck() bool { return atomic.LoadInt32(&vhsStuck) >= 3 }
+
+const vhsWait = 3 * time.Second
+
 func (s *vhsSess) rt(c *vhsConn, m message) message {
+	c.c.SetWriteDeadline(time.Now().Add(vhsWait))
 	if err := send(ulog.Null, c.c, 1, m); err != nil {
 		s.broken = "send: " + err.Error()
 		return nil
 	}
-	c.c.SetReadDeadline(time.Now().Add(10 * time.Second))
+	c.c.SetReadDeadline(time.Now().Add(vhsWait))
 	_, r, err := recv(ulog.Null, c.c, vhsMsize, msgDotLRegistry.get)
 	if err != nil {
+		if s.broken == "" {
+			atomic.AddInt32(&vhsStuck, 1)
+		}
 		s.broken = "recv: " + err.Error()
 		return nil
 	}
@@ -138,7 +149,7 @@ func (s *vhsSess) stopConn(id int, partial []byte) {
 	c.c.Close()
 	select {
 	case <-c.done:
-	case <-time.After(10 * time.Second):
+	case <-time.After(vhsWait):
 		s.returned = false
 	}
 	delete(s.conns, id)
